@@ -174,7 +174,7 @@ Definition delete_column_sim_hyp (s : schema) (a : action) : bool :=
   | DeleteColumn t c =>
       match find_table t s with
       | Some td =>
-          (wf_names s && wf_auto s
+          (wf_names s && wf_auto s && has_column c td
            && forallb (fun k => negb (constraint_mentions c k)) (t_constraints td)
            && forallb constraint_nonempty (t_constraints td)
            && negb (column_referenced s t c)
